@@ -48,7 +48,8 @@ func checkC03(r *Run) {
 				`^\(types\.Address\)\.Equals\(`+reSigner+`, crypto\.PublicKey\.Address\(`+reSigPubKey+`\)\)$`,
 				`^bytes\.Equal\(.*crypto\.PublicKey\.Address\(`+reSigPubKey+`\).*`+reSigner+`.*\)$`)
 			// signature verified (or simulating), with the bound key, the sign bytes and the tx signature
-			verify := `crypto\.PublicKey\.VerifyBytes\((phi\()?(` + reSigPubKey + `|` + reAcctKey + `)(, (` + reSigPubKey + `|` + reAcctKey + `)\))?, x/auth\.GetSignBytes\(types\.Ctx\.ChainID\(param:ctx\), param:stdTx\)#0, param:stdTx\.Signature\.Signature\)`
+			// (the receiver of VerifyBytes is checked by the key-sources obligation below, also through helper functions)
+			verify := `crypto\.PublicKey\.VerifyBytes\(.*, x/auth\.GetSignBytes\(types\.Ctx\.ChainID\(param:ctx\), param:stdTx\)#0, param:stdTx\.Signature\.Signature\)`
 			r.requireCut("C03-R1", key, nil, ret, "signature-verified-or-simulate",
 				`^param:simulate$`, `^`+verify+`$`)
 			// multisig keys additionally pass the depth check
@@ -62,10 +63,7 @@ func checkC03(r *Run) {
 			recv := argTerm(t, 0)
 			ok := true
 			var srcs []string
-			leaves := []*Term{recv}
-			if recv.Op == "phi" {
-				leaves = recv.Args
-			}
+			leaves := P.ValueAlternatives(recv, 2)
 			for _, l := range leaves {
 				s := l.String()
 				srcs = append(srcs, s)
